@@ -353,6 +353,26 @@ def registry_leg(ctx: Ctx, maxops: int):
         for b in bad:
             ctx.violation({"formula": "", "fid": "registry", "path": "for_data", "output": b.get("output"), "materializer": str(c["hist"]), "full_rank": True, "na": "drop",
                            "cluster": False}, b, kind="replay")
+    from ..tlc import simulate_emitted
+
+    deep = 7
+    sr, srecs = simulate_emitted("MC_Registry", f"SPECIFICATION Spec\nCONSTANTS\n  MaxOps = {deep}\n  Emit = TRUE\nINVARIANT Laws\nPROPERTY Monotone\nINVARIANT EmitCase\n", "c05r",
+                                 num=150 if ctx.quick else 2000, depth=deep + 2, seed=ctx.seed + 1)
+    if sr.violated:
+        ctx.model_violation(sr, "MC_Registry (simulation)")
+    seen = set()
+    uniq = [c for c in srecs if len(c["hist"]) > maxops and (k := tuple(c["hist"])) not in seen and not seen.add(k)]
+    sres = pmap("harness.props.c05", "replay_registry", uniq, chunk=50)
+    for c, bad in zip(uniq, sres):
+        ctx.traces += 1
+        ctx.evaluations += len(c["q"]) + len(c["byname"])
+        ctx.nontrivial.add(jhash(["registry", c["hist"]]))
+        for b in bad:
+            ctx.violation({"formula": "", "fid": "registry", "path": "for_data", "output": b.get("output"), "materializer": str(c["hist"]), "full_rank": True, "na": "drop",
+                           "cluster": False}, b, kind="replay")
+    ctx.require("registry: simulated definition sequences longer than the exhaustive bound", len(uniq), 300)
+    ctx.tlc_runs.append({"module": "MC_Registry", "what": f"-simulate: random sequences of <= {deep} class definitions", "generated": sr.generated, "distinct": len(uniq), "depth": deep,
+                         "wall_s": round(sr.wall_s, 2)})
     real_dispatch(ctx)
 
 
